@@ -307,8 +307,12 @@ Definition t81_demo_extras : list (Z * list Z) :=
 (* t81_encode sel tds tables dht_after extras w h comps P pixels.
    tables: (id, (BITS, HUFFVAL)) with distinct ids 0..3; extras: (marker code byte of an APPn or
    COM segment, payload) placed after SOI *)
-Definition t81_encode (sel : Z) (tds : list Z) (tables : list (Z * (list Z * list Z)))
-           (dht_after : bool) (extras : list (Z * list Z))
+Definition t81_extra_ok (e : Z * list Z) : bool :=
+  (((224 <=? fst e) && (fst e <=? 239)) || (fst e =? 254)) && (Z.of_nat (length (snd e)) <? 65534).
+(* t81_encode_x: as t81_encode below, with a second list of APPn/COM segments [mids] placed
+   directly in front of the scan header (after SOF3 and all DHT segments) *)
+Definition t81_encode_x (sel : Z) (tds : list Z) (tables : list (Z * (list Z * list Z)))
+           (dht_after : bool) (extras mids : list (Z * list Z))
            (w h comps P : Z) (pixels : list Z) : option (list Z) :=
   let bps := if P <=? 8 then 1 else 2 in
   if negb ((1 <=? w) && (w <=? 65535) && (1 <=? h) && (h <=? 65535) && (1 <=? comps) && (comps <=? 4)
@@ -320,8 +324,7 @@ Definition t81_encode (sel : Z) (tds : list Z) (tables : list (Z * (list Z * lis
            && forallb (fun v => v <? 2 ^ P) (t81_samples P pixels)
            && forallb (fun t => (0 <=? fst t) && (fst t <=? 3) && t81_table_ok (fst (snd t)) (snd (snd t))) tables
            && t81_distinct (map fst tables)
-           && forallb (fun e => (((224 <=? fst e) && (fst e <=? 239)) || (fst e =? 254))
-                                && (Z.of_nat (length (snd e)) <? 65534)) extras)
+           && forallb t81_extra_ok extras && forallb t81_extra_ok mids)
   then None
   else
     let etabs := map (fun t => (fst t, t81_entries (fst (snd t)) (snd (snd t)))) tables in
@@ -334,10 +337,24 @@ Definition t81_encode (sel : Z) (tds : list Z) (tables : list (Z * (list Z * lis
             ++ (if dht_after then [] else dhts)
             ++ t81_sof3 w h P (Z.to_nat comps)
             ++ (if dht_after then dhts else [])
+            ++ concat (map (fun e => t81_seg (fst e) (snd e)) mids)
             ++ t81_sos sel tds
             ++ t81_emit [] words
             ++ [255; 217])
     end.
+
+Definition t81_encode (sel : Z) (tds : list Z) (tables : list (Z * (list Z * list Z)))
+           (dht_after : bool) (extras : list (Z * list Z))
+           (w h comps P : Z) (pixels : list Z) : option (list Z) :=
+  t81_encode_x sel tds tables dht_after extras [] w h comps P pixels.
+
+(* segments with EMPTY payloads (Lp = 2), a one-byte and a long one: in front of the frame
+   header ... *)
+Definition t81_empty_extras : list (Z * list Z) :=
+  [(254, []); (227, []); (225, [7]);
+   (254, [255; 217; 99; 111; 109; 255; 0; 1; 2; 3; 4; 5; 6; 7; 8; 9; 10; 11; 12; 13; 14; 15; 16; 17; 18; 19; 20])].
+(* ... and directly in front of the scan header *)
+Definition t81_empty_mids : list (Z * list Z) := [(254, []); (231, []); (238, [1])].
 
 (* ---------- decoder ---------- *)
 (* one component: its id, the table selected for it, the rest of the line above starting
